@@ -88,16 +88,23 @@ pub fn insert_line(text: &str, pos: usize, line: &str) -> Option<String> {
 }
 
 /// number of single-line corruptions: the JUNK insertions plus two mutations of an existing line
-pub const N_CORRUPTIONS: usize = JUNK.len() + 2;
+pub const N_CORRUPTIONS: usize = JUNK.len() + 2 + JUNK.len();
 
 /// Corruption `j` at line `pos`: j < JUNK.len() inserts a junk line in front of line `pos`; JUNK.len() deletes the colon of a
 /// field line (so that it is no field any more); JUNK.len()+1 removes the indentation of a continuation line (so that it is
-/// no continuation any more).  None when the corruption does not apply or would leave a well-formed line.
+/// no continuation any more); JUNK.len()+2.. append the junk line at the very end WITHOUT a newline.  None when the corruption does not apply or would leave a well-formed line.
 pub fn corrupt(text: &str, pos: usize, j: usize) -> Option<String> {
     if j < JUNK.len() {
         return insert_line(text, pos, JUNK[j]);
     }
     let lines: Vec<&str> = text.split_inclusive('\n').collect();
+    if j >= JUNK.len() + 2 {
+        // the junk line as the LAST line of the document, without a final newline
+        if j >= N_CORRUPTIONS || pos != lines.len() || !(text.is_empty() || text.ends_with('\n')) {
+            return None;
+        }
+        return Some(format!("{}{}", text, JUNK[j - JUNK.len() - 2]));
+    }
     let line = *lines.get(pos)?;
     let body = line.strip_suffix('\n').unwrap_or(line);
     let new_body: String = if j == JUNK.len() {
@@ -141,7 +148,7 @@ impl Prop for C03 {
         "exploration"
     }
     fn rule(&self, _t: Tier) -> String {
-        "documents are choice vectors over the layout slots of a PxF skeleton (P,F in 1..3): every vector with at most k deviations from the simplest layout is rendered (text + intended reading by construction) and read with the strict reader; vectors whose deviation has no effect on the text are skipped, so every evaluated document is distinct; rejection clause: every k<=1 document x every line position x (4 inserted junk lines, the colon of a field line deleted, the indentation of a continuation line removed); field-name alphabet clause: every printable ASCII character except ':' inside a field name, and every one except '-' and '#' as its first character; non-trivial = document with at least one deviation".into()
+        "documents are choice vectors over the layout slots of a PxF skeleton (P,F in 1..3): every vector with at most k deviations from the simplest layout is rendered (text + intended reading by construction) and read with the strict reader; vectors whose deviation has no effect on the text are skipped, so every evaluated document is distinct; rejection clause: every k<=1 document x every line position x (4 inserted junk lines - at the end also without a final newline -, the colon of a field line deleted, the indentation of a continuation line removed); field-name alphabet clause: every printable ASCII character except ':' inside a field name, and every one except '-' and '#' as its first character; non-trivial = document with at least one deviation".into()
     }
     fn bounds(&self, t: Tier) -> Value {
         let mut per = vec![];
